@@ -134,6 +134,9 @@ class ConstraintKMeans(KMeans):
                 self.cluster_centers_ = centers
                 self.inertia_ = float(X.shape[0])
                 self.n_iter_ = 0
+                # an earlier fit with kmeans0=True may have recorded
+                # another number of features
+                self.n_features_in_ = X.shape[1]
         finally:
             self.max_iter = max_iter
         return self.constraint_kmeans(
